@@ -18,6 +18,9 @@ Property statement (verbatim):
 Reading guide.  `p5 u` are the five encoded components of `u`; `Rfc.resolve` (YarlModel/Rfc.lean) is an
 independent transcription of §5.2.2 with §5.2.3 `merge` and §5.2.4 `removeDotSegments`, non-strict;
 `Gen.usesRelative` is `urllib.parse.uses_relative` as generated from the Python sources.
+
+Continued in C14HeadlineMore3.lean (theorems that need C14More.lean / C15More2.lean, which import this file: the EXACT
+condition `C14_deviates` for join = RFC 3986 with a base without authority, and the rootless base path next to an authority).
 -/
 namespace Yarl
 open Yarl.PathLemmas Yarl.JoinLemmas EntryLemmas
@@ -230,18 +233,36 @@ example : p5 (join ⟨.py, Oracles.empty⟩ rfcBase (rel "../g" "y" "s")) =
 
 /-
 GAPS:
- 1. PARTLY CLOSED by C15_rds_rooted_relative (C15More.lean) + joinPath_eq (C14.lean), see C14_headline_join_rootless_characterised
-    (proved in this file).  Rootless base path (no authority, e.g. `URL("a/b")`) TOGETHER WITH a '.' in either
-    path: join is NOT RFC 3986 (known finding F-C14-rootless-base, C14_headline_join_rfc_fails_for_rootless_base).  What the
-    code computes instead IS now characterised against §5.2.4, for a relative-path reference with a non-empty rootless path:
-    `remove_dot_segments("/" + merged)[1:]` instead of `remove_dot_segments(merged)`, all other components as in the RFC.
+ 1. CLOSED (as a proof gap; the deviation itself is the library's behaviour and STAYS) by C14_join_rfc_iff, C14_join_vs_rfc,
+    C14_join_rfc_deviation, C14_headline_join_rfc_rootless_base_exact, C14_join_rfc_iff_general, C14_pathEscapes_iff,
+    C14_merged_segments, C14_rds_any, C14_normalize_eq_rds_iff, C14_rooted_drop_eq_rds_iff (C14More.lean), see
+    C14_headline_join_rfc_iff, C14_headline_join_vs_rfc, C14_headline_join_rfc_fails_when_deviates,
+    C14_headline_join_rfc_base_without_authority, C14_headline_join_rfc_iff_general, C14_headline_deviates_closed_form,
+    C14_headline_deviates_false_of_no_dotdot, C14_headline_rds_vs_stack (C14HeadlineMore3.lean); earlier:
+    C15_rds_rooted_relative (C15More.lean) + joinPath_eq (C14.lean), see C14_headline_join_rootless_characterised (this file).
+    Rootless base path (no authority, e.g. `URL("a/b")`) TOGETHER WITH dot segments: join is NOT always RFC 3986 (known finding
+    F-C14-rootless-base, C14_headline_join_rfc_fails_for_rootless_base).  What the code computes instead is characterised
+    against §5.2.4, for a relative-path reference with a non-empty rootless path: `remove_dot_segments("/" + merged)[1:]`
+    instead of `remove_dot_segments(merged)`, all other components as in the RFC.
     A reference that is not merged (own authority, EMPTY path or ROOTED path) against such a base is RFC-exact:
-    C14_headline_join_rfc_ref_not_merged (new, from join_rfc_of_path / joinPath_rfc / target_rooted in C14.lean).
-    STILL OPEN: no closed-form condition on base/ref for when the two results coincide beyond "no '.' in either path"
-    (C14_headline_join_rfc_rootless_base).
- 2. PARTLY CLOSED, same theorem (its hypothesis `hbase : base.path.head? ≠ some 47` includes the EMPTY base path).  Base with neither
-    authority nor path and a rootless reference containing '.': same deviation (C14_empty_base_dotdot_counterexample,
-    restated in C14_headline_join_rfc_fails_for_other_guards), now characterised as in item 1 (here merged = the reference path).
+    C14_headline_join_rfc_ref_not_merged (from join_rfc_of_path / joinPath_rfc / target_rooted in C14.lean).
+    Proved now (the former "STILL OPEN: no closed-form condition … for when the two results coincide"): for a base WITHOUT
+    authority (any path) and a reference WITHOUT authority, join = §5.2.2 on all five components IF AND ONLY IF
+    `C14_deviates base.path ref.path = false`; when it is true, the RFC's path is EXACTLY '/' + join's path and scheme,
+    authority, query, fragment agree.  `C14_deviates` (a definition of C14More.lean — read it, or its proved loop-free form
+    C14_headline_deviates_closed_form): reference path non-empty and rootless, base path empty or rootless, and among the
+    '/'-segments of the merged path, after the leading "." / ".." segments and the one segment following them, some prefix
+    has more ".." than ordinary segments (a ".." pops the first segment that reached the output).  "No '.' in either path"
+    and "no '..' segment in the merged path" are special cases.  Hypotheses: `hrel` (base scheme in uses_relative), `hsch`
+    (reference scheme empty or the base's), base.netloc = [], ref.netloc = []; for a reference WITH an authority only the
+    sufficient direction under `href` (C14_headline_join_rfc_base_without_authority).  The Python transcription
+    `deviates(bp, rp)` in the header comment of C14More.lean is a comment, not a proved object.
+ 2. CLOSED, same theorems (`C14_deviates` includes the EMPTY base path: `bp.head? ≠ some 47`; e.g. `URL("").join(URL("a/../b"))`
+    deviates, `URL("").join(URL("../b"))` does not — computed `example`s in C14More.lean).  Base with neither authority nor path
+    and a rootless reference containing '.': same deviation (C14_empty_base_dotdot_counterexample, restated in
+    C14_headline_join_rfc_fails_for_other_guards), characterised as in item 1 (here merged = the reference path) and now with
+    the same exact condition.  Note `hempty` of C14_headline_join_rfc applies to a base with a scheme such as `http:` too; the
+    iff covers it (no authority).
  3. For library-made URLs (`ReachC`) with an AUTHORITY in the base all guards are discharged
     (C14_headline_join_rfc_reachable).  `ReachC` excludes encoded=True anywhere in the history; for such
     URLs only the guarded theorem applies.
@@ -252,5 +273,24 @@ GAPS:
  6. Pass-through when the reference has an authority but the (common) scheme is in uses_relative and not in
     uses_authority: impossible for the generated tables (`C14_relative_subset_authority`), so not a gap,
     but it depends on the generated tables.
+ 7. NEW.  A base WITH an authority and a ROOTLESS non-empty path (`URL.build(host=…, path="x/y", encoded=True)` / hand-made parts
+    only; excluded by `hbase` / `hb` of every theorem above, including both iffs of item 1): join is NOT RFC 3986 in general
+    (C14_rootless_authority_base_counterexample).  PARTLY CLOSED by C15_rfc_join_authority_rootless_base,
+    C15_rfc_join_authority_rootless_base_instances (C15More2.lean), see C14_headline_join_rootless_authority_base,
+    C14_headline_join_rfc_fails_for_rootless_authority_base (C14HeadlineMore3.lean).  Proved, for a relative-path reference
+    (no authority, non-empty rootless path): the PATH of the result — `normalize_path(base.path + ref.path)` when the base path
+    ends with '/' (that text is the RFC's merged path, normalised as a relative path), otherwise §5.2.4 of
+    "//" + (base.path[1:] up to its last '/') + ref.path (`raw_parts` eats the first character of the base path).
+    STILL OPEN: no comparison with `Rfc.resolve` (no iff, no "differs by …" statement) for this shape; references with an empty
+    or rooted path or their own authority against such a base are not stated in any headline theorem
+    (C14_headline_join_rfc_ref_not_merged excludes this base; join_rfc_of_path of C14.lean would give the own-authority case
+    under `href`).
+ 8. NEW (side condition, unchanged in substance).  `href` — a reference WITH its own authority is returned as it is, so its
+    path must already be free of dot segments — is a hypothesis of C14_headline_join_rfc and of
+    C14_headline_join_rfc_base_without_authority; it is needed (C14_headline_join_rfc_fails_for_other_guards, `encoded=True`
+    references only), discharged for `ReachC` references only inside C14_headline_join_rfc_reachable (item 3: base with an
+    authority), and there is no iff for it.  C15_join_ref_dots_iff
+    (C15More2.lean) states the underlying fact: with such a reference the result has the reference's authority and its path has
+    no dot segment iff the reference's has none.
 -/
 end Yarl
